@@ -133,7 +133,7 @@ class SessionPlan(Plan):
         return ()
 
     def cases(self, tier, seed):
-        return itertools.chain(self.extra_cases(tier, seed), reentrant_end_cases(), invalid_connect_cases(), long_run_cases(), self.walk_cases(tier, seed))
+        return itertools.chain(self.extra_cases(tier, seed), reentrant_end_cases(), invalid_connect_cases(), long_run_cases(), refusal_reaction_cases(), self.walk_cases(tier, seed))
 
 
 def invalid_connect_cases():
@@ -149,6 +149,19 @@ def invalid_connect_cases():
             yield C.SessionCase("invalid-connect", Cfg(profile=prof, model="tcp"),
                                 steps=[("build", 0), ("call", 0, "connect", ("cid",), kw), ("call", 0, "connect", ("cid",), kw), ("adv", 11)] + tail)
         yield C.SessionCase("invalid-connect", Cfg(profile=prof), steps=[("build", 0), ("call", 0, "connect", ("x" * 24,), dict(version={"level": 3, "tag": "MQIsdp"}))] + tail)
+
+
+def refusal_reaction_cases():
+    """The broker refuses the CONNECT and the application reacts from inside the errback of connect():
+    it connects again at once on the same protocol (same transport) or publishes."""
+    for react in ("connect", "publish"):
+        for model in ("sync", "tcp"):
+            for prof in ("pubsub", "pub", "sub"):
+                for rc_ in (1, 5):
+                    for ka in (0, 5):
+                        st = [("build", 0), ("connect", 0, True, ka, 4), ("connack", 0, rc_, False), ("connack", 0, 0, False),
+                              ("pub", 0, 1), ("sub", 0, "str", 1, 1), ("adv", 12), ("lose", 0, "done")]
+                        yield C.SessionCase("refusal-reaction", Cfg(profile=prof, model=model, re_on_refuse=react), steps=st)
 
 
 def long_run_cases():
